@@ -3,6 +3,7 @@ package main
 import (
 	"bytes"
 	"fmt"
+	"io"
 	"math/big"
 	"strings"
 	"sync"
@@ -55,9 +56,9 @@ type sPair struct{ K, V string }
 
 type target struct {
 	name string
-	prim bool               // low-level codec target: decode(b)=v  =>  encode(v)=b is asserted
+	prim bool // low-level codec target: decode(b)=v  =>  encode(v)=b is asserted
 	// (fingerprints of targets that exercise one mechanism are grouped, see fpGroup)
-	mk   func() interface{} // fresh pointer to decode into (maps pre-made exactly where the repo's callers pre-make them)
+	mk func() interface{} // fresh pointer to decode into (maps pre-made exactly where the repo's callers pre-make them)
 }
 
 var boundary = []byte{0x00, 0x01, 0x7f, 0x80, 0x81, 0xb7, 0xb8, 0xb9, 0xbf, 0xc0, 0xc1, 0xf7, 0xf8, 0xf9, 0xfa, 0xff}
@@ -240,6 +241,41 @@ func fpGroup(target, class string) string {
 	return target + "/" + class
 }
 
+// hot-path outcome counting: per accumulator, per target name, per class (no string building)
+func (a *acc) hit(target, class string) {
+	m := a.hot[target]
+	if m == nil {
+		if a.hot == nil {
+			a.hot = map[string]map[string]int64{}
+		}
+		m = map[string]int64{}
+		a.hot[target] = m
+	}
+	m[class]++
+}
+
+// sentinel errors are classified by identity (no formatting)
+var sentinelClass = map[error]string{}
+
+func init() {
+	for _, e := range []error{io.EOF, io.ErrUnexpectedEOF, rlp.ErrExpectedString, rlp.ErrExpectedList, rlp.ErrCanonInt, rlp.ErrCanonSize, rlp.ErrElemTooLarge,
+		rlp.ErrValueTooLarge, rlp.ErrMoreThanOneValue, rlp.EOL, types.ErrUnknownChangeLogType, types.ErrWrongChangeLogData} {
+		sentinelClass[e] = errClass(e)
+	}
+}
+
+func fastErrClass(err error) (class string) {
+	defer func() { // an error value of an unhashable dynamic type cannot be a map key
+		if recover() != nil {
+			class = errClass(err)
+		}
+	}()
+	if c, ok := sentinelClass[err]; ok {
+		return c
+	}
+	return errClass(err)
+}
+
 // decodeOne is the decoder-side oracle for one (target, input).
 func decodeOne(a *acc, t *target, in []byte, family string) {
 	a.evals++
@@ -261,7 +297,7 @@ func decodeOne(a *acc, t *target, in []byte, family string) {
 		return
 	}
 	if err != nil {
-		a.outcomes[t.name+"/"+errClass(err)]++
+		a.hit(t.name, fastErrClass(err))
 		return
 	}
 	panicked, pclass, pdetail = guard(func() { enc, eerr = rlp.EncodeToBytes(p) })
@@ -271,7 +307,7 @@ func decodeOne(a *acc, t *target, in []byte, family string) {
 		what := fmt.Sprintf("%s decoded from %x cannot be encoded again: panic=%v err=%v %s", t.name, in, panicked, eerr, clipS(pdetail, 800))
 		a.violate("C14/decoded-not-encodable/"+t.name+"/"+pclass, what, replayCase{Kind: "decode", Target: t.name, Hex: hx(in)}, len(in))
 	case bytes.Equal(enc, in):
-		a.outcomes[t.name+"/ok"]++
+		a.hit(t.name, "ok")
 	case t.prim:
 		cl := nonCanonClass(in, enc)
 		a.outcomes[t.name+"/ok-noncanonical:"+cl]++
@@ -411,7 +447,7 @@ func decoderSide(r *core.Result) {
 	targets := allTargets()
 	fullLen, bndLen, tailFull, tailBnd := 2, 4, 2, 4
 	if core.Thorough() {
-		fullLen, bndLen, tailFull, tailBnd = 3, 6, 3, 5
+		fullLen, bndLen, tailFull, tailBnd = 3, 6, 2, 5
 	}
 	full := fullAlphabet()
 	var jobs []job
@@ -424,16 +460,19 @@ func decoderSide(r *core.Result) {
 		rawOne(a, in)
 	}
 
+	// The two bulk families (F1, F2) are queued last and by increasing length, so that an internal
+	// deadline cuts the longest strings of the largest family and nothing else.
+	var bulk []job
 	// F1: every byte string of length <= fullLen
 	for n := 0; n <= fullLen; n++ {
 		n := n
 		if n == 0 {
-			jobs = append(jobs, func(a *acc) { one(a, []byte{}, "F1"); a.counters["inputs_F1_all_bytes"]++ })
+			bulk = append(bulk, func(a *acc) { one(a, []byte{}, "F1"); a.counters["inputs_F1_all_bytes"]++ })
 			continue
 		}
 		for _, c := range full {
 			c := c
-			jobs = append(jobs, func(a *acc) {
+			bulk = append(bulk, func(a *acc) {
 				forAllStrings(full, n, []byte{c}, func(b []byte) { one(a, b, "F1"); a.counters["inputs_F1_all_bytes"]++ })
 			})
 		}
@@ -449,7 +488,7 @@ func decoderSide(r *core.Result) {
 		for _, c1 := range boundary {
 			for _, c2 := range boundary {
 				pre := []byte{c1, c2}
-				jobs = append(jobs, func(a *acc) {
+				bulk = append(bulk, func(a *acc) {
 					forAllStrings(boundary, n, pre, func(b []byte) { one(a, b, "F2"); a.counters["inputs_F2_boundary_alphabet"]++ })
 				})
 			}
@@ -502,9 +541,11 @@ func decoderSide(r *core.Result) {
 	// F5: slot variants of valid Header / Transaction encodings
 	jobs = append(jobs, func(a *acc) { slotVariants(a) })
 
+	nSmall := len(jobs)
+	jobs = append(jobs, bulk...)
 	skipped := runJobs(jobs)
 	if skipped > 0 {
-		r.NotExhaustive(fmt.Sprintf("decoder side: internal deadline hit, %d of %d shards not run", skipped, len(jobs)))
+		r.NotExhaustive(fmt.Sprintf("decoder side: internal deadline hit, %d of %d shards not run (queue order: F3, F4, F5 = %d shards, then F1 by length, then F2 by length; see counters inputs_F* for what was completed)", skipped, len(jobs), nSmall))
 	}
 	r.Extra["decoder_bounds"] = map[string]interface{}{
 		"F1_all_bytes_max_len":         fullLen,
